@@ -43,21 +43,30 @@ class CtlPool:
         self.trace = []
         self.callback_errors = []
         self.on_submit = None
+        self.ch = None
 
     def submit(self, fn, *args, **kwargs):
         fut = Future()
         self._seq += 1
         label = getattr(fn, "vlabel", None) or ("job:" + getattr(getattr(fn, "func", fn), "__name__", "fn"))
-        self.pending.append(Job(label, fut, fn, args, kwargs, self._seq))
+        job = Job(label, fut, fn, args, kwargs, self._seq)
         if self.on_submit is not None:
             self.on_submit(label)
+        # a worker thread may pick the job up and finish it before the submitting code goes on (the future
+        # handed back is then already done): one deviation
+        if self.ch is not None and self.ch.choose(2, [0, 1]) == 1:
+            self.trace.append("eager:%s" % (label,))
+            self._run(job, eager=True)
+            return fut
+        self.pending.append(job)
         return fut
 
     def shutdown(self, wait=True):
         pass
 
-    def _run(self, job):
-        self.trace.append("run:%s" % (job.label,))
+    def _run(self, job, eager=False):
+        if not eager:
+            self.trace.append("run:%s" % (job.label,))
         if not job.fut.set_running_or_notify_cancel():
             return
         try:
